@@ -4,6 +4,7 @@ package c17
 
 import (
 	"fmt"
+	"os"
 	"regexp"
 	"strings"
 	"testing"
@@ -26,7 +27,7 @@ var hosts = []string{
 
 func TestC17(t *testing.T) {
 	s := explore.NewSuite(t, "C17", "exploration",
-		"every ordered list of <=L rules (L=2 quick, 3 thorough; plus L=4 over a 6-rule sub-alphabet in thorough) drawn from 22 regular expressions x {include, exclude}, each evaluated on 27 host strings through ruleset.ParseRegexpListItem + NewRegexpMatcherFromList (+Inverse) and compared with a reference that evaluates every rule on its own with package regexp; plus (list-lengths) every list of 1-40 include rules and 0-40 exclude rules, each rule matching exactly one host, checked on 42 hosts; plus (concurrent-matchers, Engine T) one matcher and its inverse used by two threads at once for 4x4 hosts over 3 lists, ruleset/regexp.go rebuilt with a scheduling point before every statement, every interleaving with at most 2 (quick) / 3 (thorough) preemptions, verdicts of the two callers and of every later sequential caller compared with the per-rule reference; non-trivial = the list has at least one include rule so a matcher is built and compared")
+		"every ordered list of <=L rules (L=2 quick, 3 thorough; plus L=4 over a 6-rule sub-alphabet in thorough) drawn from 22 regular expressions x {include, exclude}, each evaluated on 27 host strings through ruleset.ParseRegexpListItem + NewRegexpMatcherFromList (+Inverse) and compared with a reference that evaluates every rule on its own with package regexp; plus (list-lengths) every list of 1-40 include rules and 0-40 exclude rules, each rule matching exactly one host, checked on 42 hosts; plus (concurrent-matchers, Engine T) one matcher and its inverse used by two threads at once for 4x4 hosts over 3 lists, ruleset/regexp.go rebuilt with a scheduling point before every statement, every interleaving with at most 2 (quick) / 3 (thorough) preemptions, verdicts of the two callers and of every later sequential caller compared with the per-rule reference; plus (aged-matcher) every include rule x optional exclude rule on ONE matcher: the host alphabet, then N distinct other hosts (N in {300, 1100}, thorough also 4200 and 70000), then the alphabet forwards and backwards, every answer and its inverse compared with the memoryless reference; non-trivial = the list has at least one include rule so a matcher is built and compared")
 	s.Assume = []string{"package regexp (used for the per-rule reference) is trusted"}
 	compiled := make([]*regexp.Regexp, len(rules))
 	for i, r := range rules {
@@ -155,6 +156,76 @@ func TestC17(t *testing.T) {
 			}
 		}
 		x.Outcome(fmt.Sprintf("%d", min(n, 3)*10+min(m, 3)))
+	}})
+	// aged matcher: the verdict for a host must not depend on what the SAME matcher was asked before. One matcher
+	// (and its inverse) answers the whole host alphabet, then N further distinct hosts (N beyond the capacity a
+	// verdict cache could plausibly have), then the alphabet again forwards and backwards; every single answer is
+	// compared with the per-rule reference, which has no memory.
+	s.Add(explore.Scenario{Name: "aged-matcher", Run: func(x *explore.X) {
+		inc := x.ChooseFree("include", len(rules))
+		exc := x.ChooseFree("exclude", len(rules)+1) - 1
+		fillers := []int{300, 1100, 4200, 70000}
+		if os.Getenv("VERIF_TIER") != "thorough" {
+			fillers = fillers[:2]
+		}
+		n := fillers[x.ChooseFree("lookups-in-between", len(fillers))]
+		strs := []string{rules[inc]}
+		if exc >= 0 {
+			strs = append(strs, "-"+rules[exc])
+		}
+		var items []ruleset.RegexpListItem
+		for _, str := range strs {
+			it, err := ruleset.ParseRegexpListItem(str)
+			if err != nil {
+				x.Failf("parse-rejects-valid", "ParseRegexpListItem(%q): %v", str, err)
+				return
+			}
+			items = append(items, it)
+		}
+		m, err := ruleset.NewRegexpMatcherFromList(items)
+		if err != nil {
+			x.Failf("valid-list-rejected", "list %q: %v", strs, err)
+			return
+		}
+		inv := m.Inverse()
+		want := func(h string) bool {
+			return compiled[inc].MatchString(h) && !(exc >= 0 && compiled[exc].MatchString(h))
+		}
+		asked := 0
+		ask := func(h, phase string) bool {
+			asked++
+			x.Check()
+			if got, w := m.Match(h), want(h); got != w {
+				x.Failf("verdict-depends-on-history", "list %q: lookup %d on one matcher (%s), host %q: Match=%v, per-rule reference=%v", strs, asked, phase, h, got, w)
+				return false
+			}
+			if got, w := inv.Match(h), !want(h); got != w {
+				x.Failf("verdict-depends-on-history/inverse", "list %q: lookup %d on one matcher (%s), host %q: Inverse().Match=%v, want %v", strs, asked, phase, h, got, w)
+				return false
+			}
+			return true
+		}
+		for _, h := range hosts {
+			if !ask(h, "first pass over the alphabet") {
+				return
+			}
+		}
+		for i := 0; i < n; i++ {
+			if !ask(fmt.Sprintf("filler-%d.example.test", i), "distinct hosts in between") {
+				return
+			}
+		}
+		for _, h := range hosts {
+			if !ask(h, fmt.Sprintf("alphabet again after %d other hosts", n)) {
+				return
+			}
+		}
+		for i := len(hosts) - 1; i >= 0; i-- {
+			if !ask(hosts[i], "alphabet backwards") {
+				return
+			}
+		}
+		x.Outcome(fmt.Sprintf("%v/%v", want(hosts[0]), exc >= 0))
 	}})
 	s.Add(explore.Scenario{Name: "concurrent-matchers", Remote: true, MaxDev: map[string]int{"quick": 2, "thorough": 3},
 		Run: func(x *explore.X) { concurrentMatchers(t, x) }})
